@@ -1033,6 +1033,10 @@ func (e *Engine) formatVerb(verb byte, sharp bool, a Value) Value {
 			}
 			return e.callModel("FormatUint", e.conv(types.Typ[types.Uint], iv.t, iv.v))
 		}
+	case *types.Slice:
+		if eb, ok := under(u.Elem()).(*types.Basic); ok && eb.Kind() == types.Uint8 && verb == 's' {
+			return e.byteValsToStr(iv.v.(sliceV).a)
+		}
 	case *types.Pointer:
 		if verb == 'v' || verb == 's' {
 			// pointer-to-struct prints &{...}; not needed for data paths
